@@ -12,6 +12,7 @@ package bls
 //@   opt safe index slice div nil
 //@   opt noframe 1
 //@   requires threshold >= 1
+//@   requires [the-group-order-is-a-modulus] bn256.Order != nil && allocated(bn256.Order) && bigval(bn256.Order) > 1
 //@   ensures [error-or-signature] err != nil || result0 != nil
 //@   ensures [too-few-usable-shares-is-an-error] err == nil ==> len(shares) >= threshold
 //@   loop 1 invariant len(validShares) == len(validParticipants) && len(validParticipants) <= threshold && len(validParticipants) <= rangeidx1
@@ -28,6 +29,7 @@ package bls
 //@   opt safe index slice div nil
 //@   opt noframe 1
 //@   requires threshold >= 1
+//@   requires [the-group-order-is-a-modulus] bn256.Order != nil && allocated(bn256.Order) && bigval(bn256.Order) > 1
 //@   ensures [error-or-key] err != nil || result0 != nil
 //@   loop 1 invariant len(validShares) == len(validParticipants) && len(validParticipants) < threshold && len(validParticipants) <= rangeidx1
 //@   loop 1 invariant [a] forall t int :: 0 <= t && t < len(validShares) ==> validShares[t] != nil && validShares[t].V != nil && validShares[t].I >= 0
@@ -44,3 +46,6 @@ package bls
 //@   opt noframe 1
 //@   requires 0 <= i && i < len(validParticipants) && (forall t int :: 0 <= t && t < len(validParticipants) ==> validParticipants[t] != nil)
 //@   ensures result != nil
+//@   requires [the-group-order-is-a-modulus] bn256.Order != nil && allocated(bn256.Order) && bigval(bn256.Order) > 1
+//@   ensures [the-coefficient-is-a-reduced-field-element] 0 <= bigval(result) && bigval(result) < bigval(bn256.Order)
+//@   loop 1 invariant [numerator-and-denominator-stay-reduced-field-elements-at-every-step] num != nil && den != nil && 0 <= bigval(num) && bigval(num) < bigval(bn256.Order) && 0 <= bigval(den) && bigval(den) < bigval(bn256.Order)
